@@ -69,6 +69,16 @@ def sentinelize_fixed(st, sel, rng):
     return lines
 
 
+def plain_fixed(st, lines, sel):
+    """the fixed-form lines with every conditional sentinel (columns 1-2) replaced by two blanks"""
+    out = []
+    for l in lines:
+        if re.match(r"^[!cC*]\$([ 0-9]{3}[ 0]|   [^ 0])", l):
+            l = "  " + l[2:]
+        out.append(l)
+    return "\n".join(out) + "\n"
+
+
 def check_one(arg):
     std, seed, v = arg
     import fp
@@ -93,6 +103,17 @@ def check_one(arg):
     fails = []
     on = fp.parse(src, std=std, rd=fp.reader(src, ignore_comments=True, free=not fixed,
                                              include_omp_conditional_lines=True))
+    if fixed and v % 4 == 3 and not any("!" in l[6:] for l in lines if l[:1] not in "!cC*"):
+        # strict fixed form (mode 'f77': no in-line comments): the sentinels are handled all the same
+        rds = fp.FortranStringReader(src, ignore_comments=True, include_omp_conditional_lines=True)
+        rds.set_format(fp.FortranFormat(False, True))
+        strict = fp.parse(src, std=std, rd=rds)
+        plain_rd = fp.FortranStringReader(plain_fixed(st, lines, sel), ignore_comments=True)
+        plain_rd.set_format(fp.FortranFormat(False, True))
+        sref = fp.parse(src, std=std, rd=plain_rd)
+        if sref.kind == "tree" and (strict.kind != "tree" or fp.canon_repr(strict.tree) != fp.canon_repr(sref.tree)):
+            fails.append(("enabled_differs_strict_fixed", "strict fixed form (f77 mode), handling enabled: %s, not the tree of the "
+                          "source with the sentinels blanked" % strict.kind, dict(rep, form="fixed_strict")))
     if on.kind != "tree":
         fails.append(("enabled_rejected:" + rep["form"], "with handling enabled: %s line %s" % (on.kind, on.line), rep))
     elif fp.canon_repr(on.tree) != fp.canon_repr(refP.tree):
